@@ -39,6 +39,12 @@ Regexes ==
         <<RGrp("cap", "_1", <<RC(ca), RGrp("named", "n", <<RDot>>)>>), RGrp("cap", "_2", <<RC(cb)>>), RRef("n")>>,
         <<RQ(1, -1, FALSE, RGrp("cap", "_1", <<RDot>>)), RRef("_1")>>,
         <<RQ(0, 1, FALSE, RGrp("cap", "_1", <<RC(ca)>>)), RC(cb), RRef("_1")>>}
+  \* a group that takes no number before one that does
+  \cup {<<RGrp("non", "", <<x>>), RGrp("cap", "_1", <<y>>)>> : x \in {RC(ca), RAlt(<<RC(ca), RC(cb)>>)}, y \in {RC(cb), RDot}}
+  \cup {<<RGrp("non", "", <<RC(ca)>>), RGrp("cap", "_1", <<RDot>>), RRef("_1")>>,
+        <<RGrp("named", "n", <<RDot>>), RGrp("cap", "_1", <<RDot>>), RRef("_1"), RRef("n")>>,
+        <<RGrp("cap", "_1", <<RGrp("non", "", <<RC(ca)>>), RGrp("cap", "_2", <<RDot>>)>>), RRef("_2")>>,
+        <<RQ(0, 1, FALSE, RGrp("non", "", <<RC(cb)>>)), RGrp("cap", "_1", <<RC(ca)>>), RGrp("cap", "_2", <<RDot>>), RRef("_2")>>}
   \* line anchors
   \cup {<<RBol, x>> : x \in AtomsCore} \cup {<<x, REol>> : x \in AtomsCore} \cup {<<RBol, q, REol>> : q \in QCore({RDot, RC(ca)})}
   \cup {<<RC(ca), REol, RSet(TRUE, <<SC(ca)>>), RBol, RC(cb)>>}
